@@ -154,7 +154,42 @@ func c14ObserveInline(src string) (o c14Obs, pan string) {
 	return o, ""
 }
 
+// c14LongPrefix: n simple constructs, the first t of them written without the optional blanks, in front of a tag that is
+// nested in a body (for / block / set / filter / macro / else): how the constructs before it are spaced does not
+// decide whether the template parses (a parser that keeps a bounded history of tokens would care), nor what it renders.
+func c14LongPrefix(n, t, unit, tailIdx int) core.Result {
+	spaced := []string{"{{ v }}", "{% if v %}{% endif %}", "{{ v|up }}", "{% set q = v %}"}[unit]
+	tight := []string{"{{v}}", "{%if v%}{%endif%}", "{{v|up}}", "{%set q=v%}"}[unit]
+	outUnit := []string{"V", "", "V", ""}[unit]
+	tails := []struct{ src, out string }{
+		{"{% for i in [1] %}{% if v %}x{% endif %}{% endfor %}", "x"},
+		{"{% block b %}{% set w = 1 %}{% if w %}y{% endif %}{% endblock %}", "y"},
+		{"{% if false %}n{% else %}{% for i in [1, 2] %}{{ i }}{% endfor %}{% endif %}", "12"},
+		{"{% filter up %}{% if v %}z{% endif %}{% endfilter %}", "Z"},
+		{"{% macro m(a) %}{% if a %}[{{ a }}]{% endif %}{% endmacro %}{{ _self.m(7) }}", "[7]"},
+		{"{% set c %}{% for i in [1] %}c{% endfor %}{% endset %}{{ c }}", "c"},
+	}
+	tl := tails[tailIdx]
+	src := strings.Repeat(tight, t) + strings.Repeat(spaced, n-t) + tl.src
+	want := strings.Repeat(outUnit, n) + tl.out
+	out, err, pan := tryExec(stdEnv(map[string]string{"main": src}), "main", map[string]stick.Value{"v": "V"})
+	desc := fmt.Sprintf("%d x %q then %d x %q then %q", t, tight, n-t, spaced, tl.src)
+	if pan != "" {
+		return core.Violation("panic", desc+" panicked: "+pan)
+	}
+	if err != nil {
+		return core.Violation("parse-verdict", fmt.Sprintf("%s does not render: %v (with every construct spaced alike it does)", desc, err))
+	}
+	if out != want {
+		return core.Violation("output-differs", fmt.Sprintf("%s renders ...%q, want ...%q", desc, tail(out, 40), tail(want, 40)))
+	}
+	return core.Okay(t > 0, itoa(len(out)))
+}
+
 func c14Run(c core.Case) core.Result {
+	if c.Fam == "longprefix" {
+		return c14LongPrefix(c.N[0], c.N[1], c.N[2], c.N[3])
+	}
 	items := c14Items()
 	if c.N[0] >= len(items) {
 		return core.Skipped("index")
@@ -311,6 +346,17 @@ func c14Levels(tier string) []core.Level {
 		{Name: "canonical spellings parse and render (0 deviations)", Gen: func(emit func(core.Case)) { c14Gen(0, false, false, emit) }},
 		{Name: "every spelling with 1 deviation (whitespace choice from 7 (tab, newline, CR LF, two blanks, mixed, bare CR; none where the neighbours cannot merge), quote style, trailing comma, '-' marker)", Gen: func(emit func(core.Case)) { c14Gen(1, false, false, emit) }},
 		{Name: "every spelling with <= 2 deviations", Gen: func(emit func(core.Case)) { c14Gen(2, false, false, emit) }},
+		{Name: "token counts: 0..60 simple constructs (print, if, filtered print, set), the first 0..4 of them written without the optional blanks, in front of a tag nested in a for / block / else / filter / macro / set body (6 tails): spacing decides neither the parse verdict nor the output", Gen: func(emit func(core.Case)) {
+			for unit := 0; unit < 4; unit++ {
+				for tl := 0; tl < 6; tl++ {
+					for n := 0; n <= 60; n++ {
+						for t := 0; t <= 4 && t <= n; t++ {
+							emit(core.Case{Fam: "longprefix", N: []int{n, t, unit, tl}})
+						}
+					}
+				}
+			}
+		}},
 		{Name: "long gaps: every whitespace site with 40 blanks / a newline and deep indentation / 70 newlines / 300 blanks / 2100 blank-newline pairs (1 deviation), observed also as an inline template of a Twig environment that ends like a file name", Gen: func(emit func(core.Case)) { c14GenMode(1, 2, false, emit) }},
 	}
 	if thorough(tier) {
